@@ -5,7 +5,7 @@
 //   run   ID FLAGS HEXQUERY [FILE]      parse through the C API, execute, pull all
 //   hist  ID FLAGS HEXQUERY SCHED HEXINPUT...   histories over result slots (C12)
 //   parse ID FLAGS HEXQUERY             parse only (explicit length, guard page)
-// FLAGS: comma separated: - | nosimp | raw | tree | ops | max=N | t=SECONDS | twice
+// FLAGS: comma separated: - | nosimp | raw | tree | ops | max=N | t=SECONDS | twice | share
 // One JSON object per command on stdout.  A command that exceeds its time
 // budget prints {"id":..,"status":"timeout"} and the process exits with 3;
 // the caller resumes after that command (START = index of the first line).
@@ -202,7 +202,7 @@ dump_stack (std::ostream &os, zw_stack const &stk)
 
 struct flags
 {
-  bool nosimp = false, raw = false, tree = false, twice = false, noexec = false;
+  bool nosimp = false, raw = false, tree = false, twice = false, noexec = false, share = false;
   size_t max = 100000;
   unsigned t = 20;
 };
@@ -218,6 +218,7 @@ parse_flags (std::string const &s)
       else if (w == "tree") f.tree = true;
       else if (w == "twice") f.twice = true;
       else if (w == "noexec") f.noexec = true;
+      else if (w == "share") f.share = true;
       else if (w.compare (0, 4, "max=") == 0) f.max = std::stoul (w.substr (4));
       else if (w.compare (0, 2, "t=") == 0) f.t = std::stoul (w.substr (2));
     }
@@ -406,7 +407,19 @@ cmd_run (std::vector <std::string> const &w)
   else
     {
       std::string ierr;
-      zw_stack *input = make_input (file, f, ierr);
+      // share: the commands of this process that name the same file get the same Dwarf value (one
+      // open), so that what depends on the identity of the handle is the same for all of them
+      static std::map <std::string, zw_stack *> shared;
+      std::string skey = file + (f.raw ? "|raw" : "|cooked");
+      zw_stack *input = nullptr;
+      if (f.share && shared.count (skey))
+	input = shared[skey];
+      else
+	{
+	  input = make_input (file, f, ierr);
+	  if (f.share && input != nullptr)
+	    shared[skey] = input;
+	}
       if (input == nullptr)
 	os << "\"status\":\"open_error\",\"err\":" << jstr (ierr);
       else
@@ -418,7 +431,8 @@ cmd_run (std::vector <std::string> const &w)
 	      exec_and_dump (os, query, input, f);
 	      os << "}";
 	    }
-	  zw_stack_destroy (input);
+	  if (! f.share)
+	    zw_stack_destroy (input);
 	}
       zw_query_destroy (query);
     }
